@@ -75,6 +75,17 @@ def build_cases(rng, tier, schemas):
             if dup:
                 x["relative_path"] = b"dup/same.mp3"
             cases.append((mode, prior, x))
+        # one large, poorly compressible beat grid per schema (every tier): its zlib stream needs several output
+        # buffers on the final flush, so a blob truncated by the compression helper shows up as a snapshot that
+        # was accepted but cannot be read back (the round trip of C01 passes through the real framing)
+        xb = G.g_snapshot(rng, 777000 + si, "quick", valid=True)
+        idx, off, big = 0, 0.0, []
+        for _ in range(2500):
+            big.append((idx, G.dbits(off)))
+            idx += rng.choice([1, 2, 4, 8])
+            off += rng.uniform(1000.0, 50000.0)
+        xb["beatgrid"] = big
+        cases.append(("create", None, xb))
         for i in range(0, len(cases), shard_sz):
             lines, meta = ["#mode tracksv1", "create %s %s" % (sch, "disk" if rng.random() < 0.15 else "mem")], [None, None]
             for j, (mode, prior, x) in enumerate(cases[i:i + shard_sz]):
